@@ -277,6 +277,23 @@ def run(chk):
                             "exit 0 or 1", "exit %d: %s" % (r.returncode, r.stderr[-200:].decode(errors="replace")))
             elif r.returncode == 1 and b"error" not in r.stderr + r.stdout:
                 chk.violate("exit 1 without error text", {"argv": [a.decode("latin-1") for a in argv]}, "loud failure", r.stderr[-200:].decode(errors="replace"))
+        # ---- standard streams that cannot be written to (finding F73, repaired: println! panicked)
+        for argv, so, se in ((["main.asm", "-p"], "/dev/full", None), (["main.asm", "-q", "-p"], "/dev/full", None),
+                             (["main.asm", "-o", "o.bin"], "/dev/full", None), (["main.asm", "-q", "-f", "nosuch"], None, "/dev/full"),
+                             (["-h"], "/dev/full", None), (["main.asm", "-q", "-p", "-f", "symbols"], "/dev/full", "/dev/full")):
+            chk.evaluations += 1
+            fo = open(so, "wb") if so else subprocess.PIPE
+            fe = open(se, "wb") if se else subprocess.PIPE
+            r = subprocess.run([binary] + argv, cwd=d, stdout=fo, stderr=fe, timeout=20)
+            for f_ in (fo, fe):
+                if f_ is not subprocess.PIPE:
+                    f_.close()
+            chk.count("full_stream_exit_%d" % r.returncode)
+            if r.returncode not in (0, 1):
+                chk.violate("the driver ends abnormally when a standard stream cannot be written to", {"argv": argv, "stdout": so, "stderr": se},
+                            "exit 0 or 1", "exit %d: %s" % (r.returncode, (r.stderr or b"")[-200:].decode(errors="replace")))
+            elif "-p" in argv and so and r.returncode != 1:
+                chk.violate("output that could not be printed is reported as success", {"argv": argv, "stdout": so}, "exit 1", "exit %d" % r.returncode)
         # ---- numbers at the edge of a machine word on the *released* binary (no overflow checks: arithmetic wraps where
         # the oracle harness panics) against the model (unbounded integers): a wrap shows as output the model does not have
         M = ["0xffffffffffffffff", "0x10000000000000000", "0x7fffffffffffffff", "0x8000000000000000", "0xfffffffffffffffe"]
